@@ -103,6 +103,24 @@ Proof.
   - split; assumption.
 Qed.
 
+Theorem forward_verdict_model : forall c e ec v name tiers profiles f p,
+  marks_ok c = true -> ec_type ec = TForward ->
+  NoDup (map fst (render_endpoint ec c v name tiers profiles)) ->
+  (forall r, In r (all_rules tiers profiles) -> rule_ok c e r) ->
+  wf_packet p -> pk_ver p = v -> entry_mark_ok c p = true ->
+  ok_result ec c (expected ec (e_sets e) tiers profiles p) p
+    (run_chain (3 + f) (render_endpoint ec c v name tiers profiles) e name p) = true.
+Proof.
+  intros c e ec v name tiers profiles f p Hm Ht Hnd Hok Hw Hv Hd.
+  unfold run_chain. rewrite model_endpoint_lookup.
+  change (3 + f)%nat with (S (S (S f))).
+  apply (forward_exact c e _ v Hm ec); try assumption.
+  - unfold is_normal, is_forward. rewrite Ht. reflexivity.
+  - apply model_tiers_in_cs; assumption.
+  - apply model_failsafe_ok. assumption.
+  - split; assumption.
+Qed.
+
 (* ------------------------------------------------------------------ rule_ok from C08 *)
 Lemma rule_ok_fixed : forall c e r, marks_ok c = true -> c_fixed c = true -> in_domain c r = true -> rule_ok c e r.
 Proof. intros c e r Hm Hf Hd p Hw He. apply rule_exact_flat; assumption. Qed.
@@ -178,6 +196,24 @@ Example profile_pass_witness_fixed :
   exists p', run_chain 4 (render_endpoint (ec_w true) (cfg0 false) V4 "ep" tiers_w profiles_w) env_w "ep" pkt_w = RReturn p'
              /\ mark_has (pk_mark p') (c_accept (cfg0 false)) = true.
 Proof. eexists. split; vm_compute; reflexivity. Qed.
+(* The entry hypothesis "drop mark clear" cannot be dropped: the endpoint chain clears accept and pass but never
+   the drop mark, and a Deny rule renders as "if match: set drop mark" + "if drop mark set: DROP".  Witness: one
+   tier, policy [deny udp; allow], a TCP packet arriving with the drop mark set: reference allows, chains drop. *)
+Definition rule_udp_deny : rule :=
+  Build_rule Deny None (Some 17) [] [] [] [] [] [] None [] [] [] None [] [] [] [] None [] [] [] [].
+Definition tiers_d : list mtier := [Build_mtier [Build_mgroup "g" [Build_mpolicy "pol" false [rule_udp_deny; any_rule Allow]]] DefaultDeny].
+Definition pkt_d : packet := Build_packet V4 6 1 2 1000 80 0 0 [] [] CtNew 0x800.
+Theorem entry_drop_mark_necessary :
+  exists c e ec tiers p,
+    marks_ok c = true /\ ec_type ec = TNormal /\ wf_packet p /\ entry_mark_ok c p = false
+    /\ ref_verdict (e_sets e) tiers [] p = VAllow
+    /\ (exists p', run_chain 4 (render_endpoint ec c (pk_ver p) "ep" tiers []) e "ep" p = RDone FDrop p').
+Proof.
+  exists (cfg0 false), env_w, (ec_w true), tiers_d, pkt_d.
+  split; [vm_compute; reflexivity|]. split; [reflexivity|]. split; [split; vm_compute; reflexivity|].
+  split; [vm_compute; reflexivity|]. split; [vm_compute; reflexivity|]. eexists. vm_compute. reflexivity.
+Qed.
+
 Definition cfg0' : cfg := cfg0 false.
 Lemma hyps_satisfiable :
   marks_ok cfg0' = true
@@ -277,3 +313,23 @@ Proof.
   intros s tiers profiles p. unfold ref_verdict. induction tiers as [|t ts IH]; [reflexivity|].
   cbn [map endpoint_verdict]. rewrite to_tier_drop, IH. reflexivity.
 Qed.
+
+(* ------------------------------------------------------------------ statements as Props.v quotes them *)
+Lemma endpoint_verdict_in_table : forall c e cs v (Hm : marks_ok c = true) ec f tiers profiles p,
+  ec_type ec = TNormal ->
+  tiers_in_cs c e cs v tiers -> profiles_in_cs c e cs v ec profiles -> failsafe_ok e cs ec (S (S f)) ->
+  wfp v p -> entry_mark_ok c p = true ->
+  ok_result ec c (expected ec (e_sets e) tiers profiles p) p
+    (run (S (S (S f))) cs e (endpoint_rules ec c tiers profiles) p) = true.
+Proof.
+  intros c e cs v Hm ec f tiers profiles p Ht. apply (endpoint_exact c e cs v Hm ec); [|exact Ht].
+  unfold is_normal. rewrite Ht. reflexivity.
+Qed.
+
+Lemma staged_inert : forall ec c v name tiers profiles,
+  render_endpoint ec c v name (map drop_staged tiers) profiles = render_endpoint ec c v name tiers profiles
+  /\ forall s p, ref_verdict s (map drop_staged tiers) profiles p = ref_verdict s tiers profiles p.
+Proof. intros. split; [apply staged_inert_render|intros; apply staged_inert_ref]. Qed.
+
+Lemma group_chain_ignores_staged : forall c pols, group_body c pols = group_body c (nonstaged pols).
+Proof. intros. apply group_rules_nonstaged. Qed.
